@@ -155,7 +155,10 @@ def _poisoned(fn):
 
         @staticmethod
         def empty(shape, *a, **k):
-            return np.full(shape, np.nan, *a, **k)
+            try:
+                return np.full(shape, np.nan, *a, **k)
+            except (TypeError, ValueError):  # e.g. an integer dtype: leave it to numpy
+                return np.empty(shape, *a, **k)
 
     g = dict(fn.__globals__)
     g["np"] = _NP()
